@@ -151,7 +151,7 @@ dwvw_close (SF_PRIVATE *psf)
 } /* dwvw_close */
 
 static sf_count_t
-dwvw_seek	(SF_PRIVATE *psf, int UNUSED (mode), sf_count_t offset)
+dwvw_seek	(SF_PRIVATE *psf, int mode, sf_count_t offset)
 {	DWVW_PRIVATE *pdwvw ;
 
 	if (! psf->codec_data)
@@ -165,6 +165,27 @@ dwvw_seek	(SF_PRIVATE *psf, int UNUSED (mode), sf_count_t offset)
 	{	psf_fseek (psf, psf->dataoffset, SEEK_SET) ;
 		dwvw_read_reset (pdwvw) ;
 		return 0 ;
+		} ;
+
+	if (mode == SFM_READ && offset > 0)
+	{	/* The stream has no block structure to seek on : decode from the start up to the requested frame. */
+		BUF_UNION	ubuf ;
+		sf_count_t	items = offset * psf->sf.channels ;
+		int			count, bufferlen = ARRAY_LEN (ubuf.ibuf) ;
+
+		psf_fseek (psf, psf->dataoffset, SEEK_SET) ;
+		dwvw_read_reset (pdwvw) ;
+
+		while (items > 0)
+		{	count = (items >= bufferlen) ? bufferlen : (int) items ;
+			if (dwvw_decode_data (psf, pdwvw, ubuf.ibuf, count) != count)
+			{	psf->error = SFE_BAD_SEEK ;
+				return	PSF_SEEK_ERROR ;
+				} ;
+			items -= count ;
+			} ;
+
+		return offset ;
 		} ;
 
 	psf->error = SFE_BAD_SEEK ;
